@@ -4,6 +4,7 @@
    Spec.C19_Spec is what the property text names (splitlines, the lines of a file). *)
 From Boltons Require Import Lib.Prelude Lib.C19_Utf8 Spec.C19_Spec Model.C19_Model Gen.C19_Gen.
 From Boltons Require Import Proofs.C19_Split Proofs.C19_IterSplit Proofs.C19_Reverse Proofs.C19_Text Proofs.C19_Jsonl.
+From Boltons Require Import Check.C19_Check Proofs.C19_Oracle Proofs.C19_SpecChar.
 Open Scope N_scope.
 
 (* ---- iter_splitlines ---------------------------------------------------------------- *)
@@ -23,6 +24,11 @@ Print Assumptions C19_gen_breaks_ok.
 Theorem C19_splitlines_current : forall t, iter_splitlines gen_breaks t = iter_splitlines_spec t.
 Proof. exact (fun t => iter_splitlines_correct gen_breaks t C19_gen_breaks_ok). Qed.
 Print Assumptions C19_splitlines_current.
+
+(* indent(text, margin, newline) = newline.join of the reference lines, margin before non-empty ones *)
+Theorem C19_indent : forall t margin newline, indent gen_breaks t margin newline = indent_spec t margin newline.
+Proof. exact (fun t m n => indent_correct gen_breaks t m n C19_gen_breaks_ok). Qed.
+Print Assumptions C19_indent.
 
 Example C19_splitlines_ex :
   iter_splitlines gen_breaks [97; 13; 10; 98; 8232; 32; 50; 56; 11; 13; 99; 10]
@@ -72,6 +78,12 @@ Theorem C19_reverse_text : forall t bs, (1 <= bs)%nat -> forallb is_scalar t = t
 Proof. exact reverse_text_spec. Qed.
 Print Assumptions C19_reverse_text.
 
+(* text-mode file in an encoding where code point = byte value (latin-1), or encoding='latin-1' given *)
+Theorem C19_reverse_latin1 : forall c bs, (1 <= bs)%nat -> no_lone_cr c = true ->
+  reverse_iter_lines TextLatin1 c bs (length c) = Ok (reverse_lines_spec c).
+Proof. exact reverse_latin1_spec. Qed.
+Print Assumptions C19_reverse_latin1.
+
 Example C19_reverse_text_ex :
   let t := [233; 10; 8364; 120; 13; 10; 119070; 8232; 121] in
   forallb is_scalar t = true /\ no_lone_cr t = true /\
@@ -117,6 +129,14 @@ Theorem C19_jsonl_text : forall (obj : Type) (loads : text -> option obj),
 Proof. exact (fun obj loads L t ie S H => conj (jsonl_text_forward loads L t ie S H) (jsonl_text_reverse loads t ie S H)). Qed.
 Print Assumptions C19_jsonl_text.
 
+Theorem C19_jsonl_latin1 : forall (obj : Type) (loads : text -> option obj),
+  (forall s, loads (s ++ [LF]) = loads s) ->
+  forall c ie, no_lone_cr c = true ->
+  jsonl_iter loads TextLatin1 ie false c = Ok (jsonl_forward_spec loads is_ws_str ie c) /\
+  jsonl_iter loads TextLatin1 ie true c = Ok (jsonl_reverse_spec loads is_ws_str ie c).
+Proof. exact @jsonl_latin1. Qed.
+Print Assumptions C19_jsonl_latin1.
+
 Theorem C19_jsonl_text_mirror : forall (obj : Type) (loads : text -> option obj),
   (forall s, loads (s ++ [LF]) = loads s) ->
   forall t ie, forallb is_scalar t = true -> no_lone_cr t = true ->
@@ -125,3 +145,42 @@ Theorem C19_jsonl_text_mirror : forall (obj : Type) (loads : text -> option obj)
           /\ jsonl_iter loads TextUtf8 ie true (utf8_encode t) = Ok (rev os, false).
 Proof. exact @jsonl_text_mirror. Qed.
 Print Assumptions C19_jsonl_text_mirror.
+
+(* the oracle hypotheses are inhabited: the json.loads fragment used by the correspondence check
+   (numbers and escape-free strings between JSON white space) satisfies them, so the theorems
+   apply verbatim to the model instance that is compared with the implementation on every run *)
+Theorem C19_jsonl_check_oracle :
+  (forall s, mini_loads (s ++ [LF]) = mini_loads s) /\
+  (forall s, loads_bytes mini_loads (s ++ [LF]) = loads_bytes mini_loads s) /\
+  (forall s, loads_bytes mini_loads (s ++ [CR; LF]) = loads_bytes mini_loads s).
+Proof. exact (conj mini_loads_lf (conj mini_bytes_lf mini_bytes_crlf)). Qed.
+Print Assumptions C19_jsonl_check_oracle.
+
+Theorem C19_jsonl_checked_instance : forall c ie, no_lone_cr c = true ->
+  ie = true \/ forallb (line_ok (loads_bytes mini_loads) is_ws_bytes) (file_lines c) = true ->
+  exists os, jsonl_iter mini_loads Binary ie false c = Ok (os, false)
+          /\ jsonl_iter mini_loads Binary ie true c = Ok (rev os, false).
+Proof. exact (jsonl_binary_mirror mini_loads mini_bytes_lf mini_bytes_crlf). Qed.
+Print Assumptions C19_jsonl_checked_instance.
+
+(* a file that starts with a blank line, has a corrupt line, CRLF endings and a multi-byte string *)
+Example C19_jsonl_ex :
+  let c := [10; 49; 50; 13; 10; 32; 120; 10; 10; 34; 195; 169; 34; 10] in
+  no_lone_cr c = true /\
+  jsonl_iter mini_loads Binary true false c = Ok ([JInt 12; JStr [233]], false) /\
+  jsonl_iter mini_loads Binary true true c = Ok ([JStr [233]; JInt 12], false) /\
+  jsonl_iter mini_loads Binary false true c = Ok ([JStr [233]], true).
+Proof. exact (conj eq_refl (conj eq_refl (conj eq_refl eq_refl))). Qed.
+
+(* ---- the Spec itself: "never splits anywhere else" ----------------------------------------- *)
+(* independent of any algorithm: the reference lines contain no break character, there is one
+   more line than breaks, every separator is one of the eight forms, and joining the lines with
+   the text's own breaks, in order, gives the text back *)
+Theorem C19_spec_characterised : forall t, t <> [] ->
+  let ls := iter_splitlines_spec t in
+  forallb (nobrk is_break) ls = true /\
+  length ls = S (length (breaks_of is_break t)) /\
+  forallb (is_sep is_break) (breaks_of is_break t) = true /\
+  interleave ls (breaks_of is_break t) = t.
+Proof. exact spec_lines_characterised. Qed.
+Print Assumptions C19_spec_characterised.
